@@ -243,7 +243,36 @@ type faultyP struct {
 func (f faultyP) Init() error             { return f.in.Init() }
 func (f faultyP) Logs() ([]string, error) { return f.in.Logs() }
 func (f faultyP) ReadOps(id string) (persistence.LogStateReadOps, error) {
-	return f.in.ReadOps(id)
+	r, err := f.in.ReadOps(id)
+	if err != nil {
+		return nil, err
+	}
+	return faultyR{r, f, id}, nil
+}
+
+type faultyR struct {
+	persistence.LogStateReadOps
+	f  faultyP
+	id string
+}
+
+func (r faultyR) GetLatest() ([]byte, error) {
+	r.f.mu.Lock()
+	k := "R.GetLatest/" + r.id
+	n := r.f.occ[k]
+	r.f.occ[k] = n + 1
+	var err error
+	if r.f.fault != nil {
+		err = r.f.fault("R.GetLatest", r.id, n)
+	}
+	if err != nil {
+		*r.f.fired++
+	}
+	r.f.mu.Unlock()
+	if err != nil {
+		return nil, err
+	}
+	return r.LogStateReadOps.GetLatest()
 }
 func (f faultyP) WriteOps(id string) (persistence.LogStateWriteOps, error) {
 	w, err := f.in.WriteOps(id)
